@@ -595,6 +595,30 @@ def biaffine(shapes):
         out += _run(R + "__getitem__", f"(x*z+x){sx}[...,1:]", se, lambda o: o["e"][..., 1:], lambda v: v["e"][..., 1:])
         out += _run(R + "__matmul__", f"(x*z+x){sx} @ const.T", se, lambda o: o["e"] @ o["k"].T, lambda v: v["e"] @ v["k"].T)
         out += _run(R + "__rmatmul__", f"const @ (x*z+x){sx}.T", se, lambda o: o["k"] @ o["e"].T, lambda v: v["k"] @ v["e"].T)
+    # a bi-affine expression built BEFORE further random variables are declared, combined with one built afterwards (ro front end)
+    if FRONT != "dro":
+        for first in (1, 2):
+            def se_late(c, first=first):
+                env = Env.__new__(Env)
+                env.c, env.nz = c, True
+                m = ro.Model()
+                m.dvar(2)
+                x = m.dvar(3)
+                z1 = m.rvar(first)
+                e1 = x * z1.sum() if first > 1 else x * z1
+                z2 = m.rvar(4)
+                e2 = x * z2[:3]
+                env.m, env.x, env.z = m, x, z2
+                env.xbar = arr([c.fresh_real(f"x{i}_") for i in range(m.rc_model.last)])
+                env.zbar = arr([c.fresh_real(f"z{i}_") for i in range(m.sup_model.last)])
+                xv, z1v, z2v = env.vals(x), env.vals(z1), env.vals(z2)
+                return env, {"e1": e1, "e2": e2, "z2": z2}, {"e1": xv * (sum(z1v) if first > 1 else z1v), "e2": xv * z2v[:3], "z2": z2v}
+            out += _run("rsome.lp:RoAffine.__add__", f"(x*z1 built with {first} random component(s)) + (x*z2 built after rvar(4))", se_late,
+                        lambda o: o["e1"] + o["e2"], lambda v: v["e1"] + v["e2"])
+            out += _run("rsome.lp:RoAffine.__add__", f"late (x*z2) + early (x*z1), {first} component(s)", se_late,
+                        lambda o: o["e2"] - o["e1"], lambda v: v["e2"] - v["e1"])
+            out += _run("rsome.lp:RoAffine.__add__", f"early (x*z1) + random z2[:3], {first} component(s)", se_late,
+                        lambda o: o["e1"] + o["z2"][:3], lambda v: v["e1"] + v["z2"][:3])
     # element-wise products with RANDOM AFFINE EXPRESSIONS whose entries depend on several (or no) random variables
     def se_r(c):
         env = Env(c, (3,), None, (4,))
